@@ -507,10 +507,16 @@ lyplg_type_sort_union(const struct ly_ctx *ctx, const struct lyd_value *val1, co
     /* compare according to the order of types */
     types = ((struct lysc_type_union *)val1->realtype)->types;
     LY_ARRAY_FOR(types, u) {
-        if (types[u] == val1->subvalue->value.realtype) {
+        const struct lysc_type *type = types[u];
+
+        if (type->basetype == LY_TYPE_LEAFREF) {
+            /* values of a leafref are stored using the type of its target */
+            type = ((struct lysc_type_leafref *)type)->realtype;
+        }
+        if (type == val1->subvalue->value.realtype) {
             rc = 1;
             break;
-        } else if (types[u] == val2->subvalue->value.realtype) {
+        } else if (type == val2->subvalue->value.realtype) {
             rc = -1;
             break;
         }
